@@ -1,6 +1,35 @@
 (* smap.ml — maps the events of one concdriver case to Sync.labels and feeds them to the extracted machine.
-   The mapping table is in REPORT.md.  Three ways out: Reject (the trace does not fit the mapping's bookkeeping),
+   Three ways out: Reject (the trace does not fit the mapping's bookkeeping),
    Step_none (the extracted Sync.step returned None: the skeleton does not allow the label), Raced. *)
+(* THE MAPPING (t = thread, latest = index of the last message of the location at that moment; counters: Misc 0 =
+   memory_usage, 1 = max_memory_usage, 2 = bucket_capacity, 3 = key counter; Lk s = shard s of the string->key map,
+   Lk (1000+k) = the lock over entry k of the key->string map).  OBS events are mapped where they stand; the operation
+   of a PRE-only event runs when the worker is released = right before that worker's next line (as in creplay.ml).
+     OBS_BUCKET_ALLOC a        LAlloc t                      (a := nb; stored range := (b,0))
+     OBS_HEAD_LOAD a           LPushLoad t i                 (i: the Head message whose value is S(bucket a))
+     PRE_HEAD_CAS e n          LPushWrite t  iff next_first  (INFERRED: no hook on the write of next); e, n checked against pst
+     OBS_HEAD_CAS ok f         LPushCas t ok i               (failure: i from f)
+     OBS_ITER_LOAD a           LWalkStart t i | LWalkNext t; check cur = bucket a; if a <> 0 then LVisit t (INFERRED:
+                               try_inc_length reads capacity before PRE_LEN_LOAD)
+     OBS_LEN_LOAD a v          LLenLoad t i                  (i: index of v in the replayer's list of real len values)
+     OBS_LEN_CAS 1 v           LLenCas t true 0              (v = expected = latest real value; list += new length)
+     OBS_LEN_CAS 0 v           LLenCas t false i
+     OBS_STORED a off          LCopy t                       (tw's bucket = a, off = the offset the CAS reserved)
+     OBS_BUCKET_CAP_LOAD / PRE_BUCKET_CAP_STORE / OBS_USAGE_LOAD _ 0 / OBS_LIMIT_LOAD / PRE_LIMIT_STORE / PRE_KEY_FETCH_ADD
+                               LMisc t m MLoad|MStore|MRmw (ord <site>) latest 0
+     allocate_memory           OBS_USAGE_LOAD _ 1 = LMisc t 0 MLoad (ord AllocUpdFail); PRE_LIMIT_LOAD 1 = LMisc t 1 MLoad
+                               (ord LimitLoad); the CAS of fetch_update has NO hook: INFERRED from the thread's next line
+                               (OBS_USAGE_LOAD _ 1: failed; RET E:mem: refused; else LMisc t 0 MRmw (ord AllocUpdOk))
+     PRE_MAP_GET s / PRE_SHARD_WRITE s / PRE_MAP_ENTRY s      LConsume t s latest (lock acquisition)
+     OBS_MAP_GET 1 k, or RET K<k> of a `get` / of a call that took the write lock and saw no vacant slot
+                               LReadData t (range of k)      (nothing for static / empty strings)
+     PRE_STRINGS_INSERT k      LConsume t (1000+k) latest; LPublish t (1000+k) [stored range]
+     PRE_MAP_INSERT k          k joins the table of the held shard
+     PRE_STRINGS_GET k         LConsume t (1000+k) latest; RET S:.. => LReadData t (range of k)
+     RET #n (U call, no hook)  LMisc t 0 MLoad (ord CurUsageLoad) latest
+     RET with a shard held     LPublish t s (ranges of ALL keys in the shard's table)
+     FINAL                     counters, block list (head first) against the skeleton's list, used bytes
+   Any other site: Reject. *)
 module L = Stdlib.List
 open Datatypes
 open Sync
